@@ -11,6 +11,7 @@ CONSTANTS
   NRef = 2
   StartCtr = 0
 INVARIANT UniqueWhileBounded
+INVARIANT NoReissue
 INVARIANT CreationInForce
 INVARIANT RefUnique
 INVARIANT SerialAdvancesOnWrap
